@@ -292,13 +292,18 @@ fn check_c18(tier: Tier) {
         }
     }
     // (threads, max program length, preemption bound)
-    let mut groups: Vec<(usize, usize, Option<usize>)> = vec![(2, 2, None)];
+    // Scheduling points: every acquisition of the intern-table lock (a thread that finds it taken
+    // parks as "blocked"), every reference-count operation on a buffer (upgrade, downgrade,
+    // into_inner, strong_count) and every operation boundary of the thread programs.
+    let mut groups: Vec<(usize, usize, Option<usize>)> = Vec::new();
     if tier == Tier::Thorough {
-        groups.push((2, 3, None));
+        groups.push((2, 2, None));
         groups.push((3, 1, None));
+        groups.push((2, 3, Some(3)));
         groups.push((3, 2, Some(2)));
     } else {
-        groups.push((3, 1, None));
+        groups.push((2, 2, Some(3)));
+        groups.push((3, 1, Some(2)));
     }
     let mut total = vh::c18::Out18::default();
     let mut group_json = Vec::new();
